@@ -12,6 +12,7 @@ import (
 	"os"
 	"sort"
 	"strings"
+	"time"
 
 	"github.com/sirupsen/logrus"
 
@@ -77,15 +78,15 @@ func galCase(rd Rendered, got map[string]*found) string {
 	return fmt.Sprintf("C [%s] [%s]", strings.Join(fs, ";"), strings.Join(obs, ";"))
 }
 
-func toCase(stream string, rd Rendered) Case {
-	cs := Case{Stream: stream, Root: rd.Files[0].Name, Files: map[string]string{}, Decls: rd.Decls}
+func toCase(stream string, rd Rendered) Input {
+	cs := Input{Stream: stream, Root: rd.Files[0].Name, Files: map[string]string{}, Decls: rd.Decls}
 	for _, f := range rd.Files {
 		cs.Files[f.Name] = f.Text
 	}
 	return cs
 }
 
-func showCase(cs Case) {
+func showCase(cs Input) {
 	var names []string
 	for n := range cs.Files {
 		names = append(names, n)
@@ -101,17 +102,26 @@ func showCase(cs Case) {
 
 func main() {
 	logrus.SetLevel(logrus.PanicLevel)
+	if common.IsWorker() {
+		common.ServeWorker(compileInWorker)
+		return
+	}
+	if len(os.Args) > 2 && os.Args[1] == "probe" {
+		probe(os.Args[2:])
+		return
+	}
 	c := common.Setup("C08")
 	defer c.Finish()
 	c.Res.Rule = "each case = one generated specification (1-3 apps in 1-4 blocks each over 1-4 files of a star / chain / tree import graph with an occasional extra edge; types and tables with fields, simple endpoints, events, REST trees with every HTTP verb, nested statements, attributes, modifiers, array values and annotations; apps, types, fields, endpoints, REST methods and annotations re-declared) written with a random layout (indent widths 1-8 per body, tabs and spaces mixed per line, blank / whitespace-only / comment lines before declarations, trailing comments, extra blanks and tabs between tokens, non-ASCII text in quoted strings in front of elements on the same line, with and without a final newline); compiled by the real parser; distinct = distinct text; non-trivial = at least one element declared more than once or more than one file"
 	if c.Replay != "" {
-		var cs Case
+		var cs Input
 		if err := common.LoadReplay(c.Replay, &cs); err != nil {
 			fmt.Fprintln(os.Stderr, err)
 			os.Exit(3)
 		}
 		showCase(cs)
-		_, cerr := judge(c, cs)
+		m, e := compile(cs.Files, cs.Root)
+		_, cerr := judge(c, cs, compiled{m, e})
 		c.Count("replay", true)
 		if cerr != "" {
 			fmt.Println("compile:", cerr)
@@ -142,10 +152,51 @@ Local Open Scope N_scope.`
 		n *= 4
 	}
 	rejected := 0
-	run := func(stream string, s Spec, o layoutOpts) {
+	type job struct {
+		stream string
+		rd     Rendered
+		in     Input
+	}
+	var jobs []job
+	add := func(stream string, s Spec, o layoutOpts) {
 		rd := render(s, lay, o)
-		cs := toCase(stream, rd)
-		got, cerr := judge(c, cs)
+		jobs = append(jobs, job{stream, rd, toCase(stream, rd)})
+	}
+	for _, s := range targeted() {
+		add("targeted", s, layoutOpts{plain: true})
+		add("targeted", s, layoutOpts{})
+	}
+	for i := 0; i < n; i++ {
+		var s Spec
+		switch i % 4 {
+		case 0:
+			s = g.spec(1, 3, 1+g.r.Intn(2), 3)
+		case 1:
+			s = g.spec(2, 3, 1+g.r.Intn(3), 3)
+		case 2:
+			s = g.spec(1+g.r.Intn(3), 3, 1+g.r.Intn(4), 2)
+		default:
+			s = g.spec(2, 2, 2, 4)
+		}
+		add("random", s, layoutOpts{plain: i%10 == 9})
+	}
+	// re-declarations that REPLACE instead of merging (Go oracle only; the model does not cover them): events declared
+	// in several blocks, [name=value] attributes repeated on several declarations of their owner
+	nh := n / 6
+	gh := &gen{r: c.Rng.Fork(), hostile: true}
+	for i := 0; i < nh; i++ {
+		add("replacing", gh.spec(1+gh.r.Intn(2), 3, 1+gh.r.Intn(2), 3), layoutOpts{plain: i%2 == 0})
+	}
+	ins := make([]Input, len(jobs))
+	for i, j := range jobs {
+		ins[i] = j.in
+	}
+	t0 := time.Now()
+	cms := compileAll(ins)
+	c.Res.Extra["compile_seconds"] = int(time.Since(t0).Seconds())
+	for ji, j := range jobs {
+		stream, rd, cs := j.stream, j.rd, j.in
+		got, cerr := judge(c, cs, cms[ji])
 		if cerr != "" {
 			rejected++
 			c.Hist("rejected:" + stream)
@@ -154,7 +205,7 @@ Local Open Scope N_scope.`
 				c.Sample(map[string]interface{}{"rejected": cs.Files, "err": cerr})
 			}
 			c.Count("rejected", false)
-			return
+			continue
 		}
 		multi := len(rd.Files) > 1
 		byKey := map[int]int{}
@@ -187,25 +238,9 @@ Local Open Scope N_scope.`
 		if len(c.Res.Samples) < 2 {
 			c.Sample(cs.Files)
 		}
-		cases.Add(galCase(rd, got), cs)
-	}
-	for _, s := range targeted() {
-		run("targeted", s, layoutOpts{plain: true})
-		run("targeted", s, layoutOpts{})
-	}
-	for i := 0; i < n; i++ {
-		var s Spec
-		switch i % 4 {
-		case 0:
-			s = g.spec(1, 3, 1+g.r.Intn(2), 3)
-		case 1:
-			s = g.spec(2, 3, 1+g.r.Intn(3), 4)
-		case 2:
-			s = g.spec(1+g.r.Intn(3), 4, 1+g.r.Intn(4), 3)
-		default:
-			s = g.spec(2, 2, 2, 5)
+		if stream != "replacing" {
+			cases.Add(galCase(rd, got), map[string]interface{}{"stream": stream, "files": cs.Files})
 		}
-		run("random", s, layoutOpts{plain: i%10 == 9})
 	}
 	cases.Close()
 	c.Res.Extra["rejected"] = rejected
